@@ -1,7 +1,23 @@
-"""Design run of Feasible.tla (shared by C02, C11, C16)."""
-from harness.common import SPEC, tlc_design
+"""Design runs of Feasible.tla (shared by C02, C11, C16): rounding as an adversary."""
+import re
+
+from harness.common import Machinery, run_tlc, tlc_design
+
+SITE_OF_CODE = {
+    # site of the model -> where the arithmetic shape occurs in lbfgsb
+    "Clip": "base.py clip2bounds (start point)",
+    "Pin": "cauchy.py variable fixed at its breakpoint",
+    "ClippedMaxStepTrial": "linesearch.py trial point x0 + alpha*d projected onto the box",
+    "ClippedUnitStep": "main.py iterate update projected onto the box",
+    "Stencil": "scalar_function.py / scipy _numdiff bounded stencil",
+}
 
 
 def run(ctx):
-    if (SPEC / "Feasible.tla").exists():
-        tlc_design(ctx, "design:Feasible", "Feasible", "Feasible.cfg")
+    tlc_design(ctx, "design:Feasible(safe sites, all roundings)", "Feasible", "Feasible.cfg", workers=4)
+    # the unprojected shapes are expected to be refuted: TLC must find a rounding that leaves the box
+    res = run_tlc(ctx, "design:Feasible(raw sites refuted)", "Feasible", "Feasible_raw.cfg", workers=4, cont=True)
+    refuted = sorted(set(re.findall(r"Invariant (Raw_\w+)_Feasible is violated", res["out"])))
+    if len(refuted) != 3:
+        raise Machinery(f"Feasible.tla: expected the three raw sites to be refuted, got {refuted}")
+    ctx.cov["feasible_model"] = {"safe_for_all_roundings": sorted(SITE_OF_CODE), "refuted_without_projection": refuted}
